@@ -126,8 +126,9 @@ class MirOb:
 
     def __init__(self, name, fn, inputs, post, desc, eval_key, pre=None, eval_args=None, functions=None,
                  bounds="full width of the input types; loop-free", outside=None, tier="quick", modes=("dev", "release"),
-                 panic_ok=None, min_paths=1, probes=None, loop_bound=8, out_of_ref=None, uf_mul=False, timeout_ms=120000,
-                 eval_out=None, ret_shape="Duration", native_refs=None):
+                 panic_ok=None, min_paths=1, probes=None, loop_bound=8, out_of_ref=None, uf_mul=False, timeout_ms=30000,
+                 eval_out=None, ret_shape="Duration", native_refs=None, pin_vars=None):
+        self.pin_vars = pin_vars
         self.name, self.fn, self.inputs, self.post, self.desc = name, fn, inputs, post, desc
         self.eval_key, self.pre, self.eval_args = eval_key, pre, eval_args
         self.functions, self.bounds, self.outside, self.tier, self.modes = functions or [fn], bounds, outside, tier, modes
@@ -250,7 +251,7 @@ def register_ranges(eng, cons):
 def run_sym(eng, ob, fn_item, subst_vals=None):
     """Run the function symbolically (or concretely when subst_vals maps every var to an int)."""
     args, allvars, cons, ref_slots, env = build_args(ob)
-    eng.var_range.clear(); eng._bcache.clear(); eng._bkeep.clear()
+    eng.var_range.clear(); eng._bcache.clear(); eng._bkeep.clear(); eng.div_cache.clear()
     register_ranges(eng, cons)
     if subst_vals is not None:
         sub = [(v, z3.IntVal(subst_vals[str(v)])) for v in allvars]
@@ -472,9 +473,9 @@ def refine_uf_model(eng, pc, goal, m, allvars, ob):
     import itertools as it
     keys = list(cands)
     tried = 0
-    for combo in it.islice(it.product(*[cands[k] for k in keys]), 60):
+    for combo in it.islice(it.product(*[cands[k] for k in keys]), 6):
         s = z3.Solver()
-        s.set("timeout", 15000)
+        s.set("timeout", 8000)
         sub = [(k, z3.IntVal(c)) for k, c in zip(keys, combo)]
         for f in real:
             s.add(z3.simplify(z3.substitute(f, *sub)))
@@ -563,14 +564,17 @@ def run_obligations(obs, tier, seed, need_replay, build_info):
                         judged = e.value
                         refs = holder_vals(e, huid)
                         eng.pending_lemmas = []
+                        env["__divs"] = list(e.state.divs)
                         postc = ob.post(env, judged, refs)
                         goal = z3.Not(Z(postc))
                         if eng.pending_lemmas:
                             e.state.pc = list(e.state.pc) + eng.pending_lemmas
                             eng.pending_lemmas = []
                         what = "post-condition violated"
-                    s = eng.solver
-                    s.push()
+                    # a fresh solver per post-condition query: measured far faster than the incremental one
+                    s = z3.Solver()
+                    s.set("arith.solver", 2)
+                    s.set("timeout", ob.timeout_ms)
                     for p in e.state.pc:
                         s.add(p)
                     s.add(goal)
@@ -579,7 +583,6 @@ def run_obligations(obs, tier, seed, need_replay, build_info):
                     r = s.check()
                     eng.solver_s += time.time() - tq
                     m = s.model() if r == z3.sat else None
-                    s.pop()
                     if r == z3.unknown:
                         rec["verdict"] = "unknown"
                         rec["detail"] = f"solver returned unknown ({mode}) on: {what}"
@@ -594,7 +597,13 @@ def run_obligations(obs, tier, seed, need_replay, build_info):
                             rec["verdict"] = "solver_disagreement"
                         else:
                             rec["cross_check"]["cvc5_timeout"] += 1
+                    if r == z3.sat and eng.use_uf_mul and rec.get("_refined", 0) >= 3:
+                        if rec["verdict"] == "holds":
+                            rec["verdict"] = "unknown"
+                            rec["detail"] = f"{what}: satisfiable with multiplication uninterpreted (refinement budget spent)"
+                        continue
                     if r == z3.sat and eng.use_uf_mul:
+                        rec["_refined"] = rec.get("_refined", 0) + 1
                         # the model may interpret `mulf` unlike real multiplication: refine by pinning
                         # one factor variable to candidate constants, which makes the real formula linear
                         m2 = refine_uf_model(eng, e.state.pc, goal, m, allvars, ob)
